@@ -106,6 +106,8 @@ class SimKernel(object):
         self.ctx = None               # request context label (set by world)
         self.victims = None           # callable -> list of candidate pids
         self.spawn_observer = None
+        self.preexec_probe = None     # callable run in a forked child after
+                                      # circus' preexec function (see C07)
         self.log_calls = False
         self.frozen = False           # settle: no spontaneous events
         self.open_files = []
@@ -504,6 +506,42 @@ class FakeProcess(object):
         return 'sim'
 
 
+def _run_preexec(preexec_fn, probe):
+    """What the child does between fork and exec, for real: a forked copy of
+    this process runs circus' preexec function, then reports probe() (a
+    JSON-able view of its descriptors) and exits."""
+    import json as _json
+    r, w = os.pipe()
+    pid = os.fork()
+    if pid == 0:
+        out = b'null'
+        try:
+            os.close(r)
+            try:
+                preexec_fn()
+                out = _json.dumps(probe()).encode()
+            except BaseException as e:       # noqa
+                out = _json.dumps({"error": repr(e)}).encode()
+        finally:
+            try:
+                os.write(w, out)
+            finally:
+                os._exit(0)
+    os.close(w)
+    chunks = []
+    while True:
+        b = os.read(r, 65536)
+        if not b:
+            break
+        chunks.append(b)
+    os.close(r)
+    os.waitpid(pid, 0)
+    try:
+        return _json.loads(b''.join(chunks).decode())
+    except ValueError:
+        return None
+
+
 class FakePopen(FakeProcess):
     """psutil.Popen stand-in.  Bound to a kernel through make_popen()."""
 
@@ -533,6 +571,8 @@ class FakePopen(FakeProcess):
                 rec["wid"] = obj.wid
                 break
             f = f.f_back
+        if k.preexec_probe is not None and preexec_fn is not None:
+            rec["child_view"] = _run_preexec(preexec_fn, k.preexec_probe)
         pid = k.spawn(rec, owner)      # may raise OSError (exec failure)
         FakeProcess.__init__(self, k, pid)
         self.returncode = None
